@@ -213,6 +213,71 @@ func runC16(c *core.Ctx) {
 				if !bad {
 					c.Discharge("fsatomic.nilreader", core.FnName(fn), in.Pos(), "every use dominated by a non-nil test")
 				}
+				// the result is a reader: whoever is handed it first drains it. On every path at most one call may take
+				// it, otherwise what reaches the file is what the first reader left over - nothing
+				takes := func(i2 ssa.Instruction) bool {
+					ci, isCall := i2.(ssa.CallInstruction)
+					if !isCall || i2 == ssa.Instruction(call) {
+						return false
+					}
+					used := false
+					for _, u := range valueUses(call) {
+						if u == i2 {
+							used = true
+						}
+					}
+					if !used {
+						return false
+					}
+					// as the receiver only the draining methods count (Len, String and the like leave the content)
+					if ci.Common().IsInvoke() {
+						switch ci.Common().Method.Name() {
+						case "Read", "WriteTo", "ReadByte", "ReadRune", "ReadString", "ReadBytes", "Next":
+							return true
+						}
+						for _, a := range ci.Common().Args {
+							for _, u := range valueUses(call) {
+								if vu, isV := u.(ssa.Value); isV && vu == a {
+									return true
+								}
+							}
+						}
+						return false
+					}
+					return true
+				}
+				in2 := map[*ssa.BasicBlock]int{}
+				var order []*ssa.BasicBlock
+				order = append(order, fn.Blocks...)
+				max, maxPos := 0, call.Pos()
+				for changed := true; changed; {
+					changed = false
+					for _, blk := range order {
+						n := in2[blk]
+						for _, i2 := range blk.Instrs {
+							if takes(i2) {
+								n++
+								if n > max {
+									max, maxPos = n, i2.Pos()
+								}
+							}
+						}
+						if n > 2 {
+							n = 2
+						}
+						for _, sc := range blk.Succs {
+							if sc != blk && in2[sc] < n && !sc.Dominates(blk) {
+								in2[sc] = n
+								changed = true
+							}
+						}
+					}
+				}
+				if max > 1 {
+					c.Report("fsatomic.onceread", core.FnName(fn)+"|Format-result", maxPos, "the reader returned by (*Formatter).Format is handed to a second consumer on one path: the first one has drained it, so with -w the file is replaced by what is left - an empty file - and the run reports success")
+				} else {
+					c.Discharge("fsatomic.onceread", core.FnName(fn)+"|Format-result", call.Pos(), "at most one consumer of the formatter's reader on every path")
+				}
 			}
 		}
 	}
